@@ -7,7 +7,26 @@ use std::io::{BufRead, Write};
 use std::panic;
 use std::sync::Mutex;
 
+mod c01;
+mod c02;
+mod c03;
+mod c04;
+mod c05;
+mod c06;
+mod c07;
+mod c08;
+mod c09;
+mod c10;
+mod c11;
+mod c12;
+mod c13;
+mod c14;
+mod c15;
+mod c16;
+mod c17;
+mod c18;
 mod c19;
+mod c20;
 mod util;
 
 pub type Obs = Result<Vec<i64>, String>;
@@ -15,7 +34,64 @@ pub type Obs = Result<Vec<i64>, String>;
 static LAST_PANIC: Mutex<String> = Mutex::new(String::new());
 
 fn dispatch(kind: &str, args: &[&str]) -> Obs {
+    if let Some(r) = c01::run(kind, args) {
+        return r;
+    }
+    if let Some(r) = c02::run(kind, args) {
+        return r;
+    }
+    if let Some(r) = c03::run(kind, args) {
+        return r;
+    }
+    if let Some(r) = c04::run(kind, args) {
+        return r;
+    }
+    if let Some(r) = c05::run(kind, args) {
+        return r;
+    }
+    if let Some(r) = c06::run(kind, args) {
+        return r;
+    }
+    if let Some(r) = c07::run(kind, args) {
+        return r;
+    }
+    if let Some(r) = c08::run(kind, args) {
+        return r;
+    }
+    if let Some(r) = c09::run(kind, args) {
+        return r;
+    }
+    if let Some(r) = c10::run(kind, args) {
+        return r;
+    }
+    if let Some(r) = c11::run(kind, args) {
+        return r;
+    }
+    if let Some(r) = c12::run(kind, args) {
+        return r;
+    }
+    if let Some(r) = c13::run(kind, args) {
+        return r;
+    }
+    if let Some(r) = c14::run(kind, args) {
+        return r;
+    }
+    if let Some(r) = c15::run(kind, args) {
+        return r;
+    }
+    if let Some(r) = c16::run(kind, args) {
+        return r;
+    }
+    if let Some(r) = c17::run(kind, args) {
+        return r;
+    }
+    if let Some(r) = c18::run(kind, args) {
+        return r;
+    }
     if let Some(r) = c19::run(kind, args) {
+        return r;
+    }
+    if let Some(r) = c20::run(kind, args) {
         return r;
     }
     Err(format!("unknown-kind:{kind}"))
